@@ -3,7 +3,7 @@ import os
 import re
 from extract import Undecided
 
-DIRECTIVES = ('rules+', 'subst', 'ret', 'props', 'requires', 'ensures', 'decreases', 'attr', 'loop', 'closure', 'hint', 'as',
+DIRECTIVES = ('rules+', 'subst', 'nohint', 'ret', 'props', 'requires', 'ensures', 'decreases', 'attr', 'loop', 'closure', 'hint', 'as',
               'rules', 'sigsub', 'opens', 'recommends', 'external_body', 'rename', 'params')
 
 
@@ -244,6 +244,19 @@ def parse(path):
                             c.tags = [tag]
                     oi.hints = [(prefix + '.' + h[0], [tag]) + tuple(h[2:]) for h in oi.hints]
                     u.items.append(oi)
+            elif word == 'rawsubst':
+                # rawsubst "old" => "new": textual replacement in the raw blocks (spec functions, lemmas) that came in through `derive`
+                m = re.match(r'"((?:[^"\\]|\\.)*)"\s*=>\s*"((?:[^"\\]|\\.)*)"$', rest)
+                if not m:
+                    raise Undecided('%s:%d: bad rawsubst directive' % (path, lineno))
+                a_, b_ = m.group(1), m.group(2)
+                nhit = 0
+                for k_, x_ in enumerate(u.items):
+                    if isinstance(x_, tuple) and a_ in x_[1]:
+                        nhit += x_[1].count(a_)
+                        u.items[k_] = (x_[0], x_[1].replace(a_, b_)) + tuple(x_[2:])
+                if nhit == 0:
+                    raise Undecided('%s:%d: rawsubst matches nothing' % (path, lineno))
             elif word == 'patch':
                 # patch <item path>: the indented directives that follow (rulearg, rules+, subst, hint, loop ...) amend a derived item
                 hits = [x for x in u.items if not isinstance(x, tuple) and x.home == u.name and x.path == rest]
@@ -321,6 +334,16 @@ def parse(path):
         elif word == 'rulearg':
             k, _, v = rest.partition(' ')
             cur.rule_args.setdefault(k, []).append(v.strip())
+            i += 1
+        elif word == 'nohint':
+            # nohint "anchor prefix": remove the hints placed at that anchor (derived items whose text lacks the statement)
+            m = re.match(r'"((?:[^"\\]|\\.)*)"$', rest)
+            if not m:
+                raise Undecided('%s:%d: bad nohint directive' % (path, lineno))
+            before = len(cur.hints)
+            cur.hints = [h for h in cur.hints if h[3] != m.group(1)]
+            if len(cur.hints) == before:
+                raise Undecided('%s:%d: nohint matches nothing' % (path, lineno))
             i += 1
         elif word == 'rules+':
             cur.rules = list(cur.rules if cur.rules is not None else u.rules) + rest.split()
